@@ -2,8 +2,10 @@
 alembic operation objects and of reflected tables, encoders into Coq terms, schema generators.
 
 Abstract schema (JSON-able, mirrors coq/Model/Schema.v):
-  schema = [table];  table = {"name": int, "cols": [[name, fam, [args], nullable, pk]], "cons": [["uq", name, [cols]] | ["ix", name, [cols], unique]]}
-Names are small integers; in SQL they are spelled t<n> / c<n> / k<n>.
+  schema = [table];  table = {"name": int, "cols": [[name, fam, [args], nullable, pk, dflt]],
+                              "cons": [["uq", name, [cols]] | ["ix", name, [cols], unique]], "fks": [[name, [cols], rtable, [rcols]]]}
+  dflt = None | ["lit", str] (server_default='...') | ["expr", str] (server_default=text('...'))
+Names are small integers; in SQL they are spelled t<n> / c<n> / k<n> (constraints, indexes) / f<n> (foreign keys).
 """
 import re
 import warnings
@@ -54,6 +56,24 @@ def abs_type(type_obj, dialect):
 def tn(n): return "t%d" % n
 def cn(n): return "c%d" % n
 def kn(n): return "k%d" % n
+def fn(n): return "f%d" % n
+
+
+def sa_default(d):
+    import sqlalchemy as sa
+    if d is None: return None
+    return d[1] if d[0] == "lit" else sa.text(d[1])
+
+
+def abs_default(sd):
+    """Column.server_default -> None | ["lit", s] | ["expr", s]"""
+    import sqlalchemy as sa
+    from sqlalchemy.sql.elements import TextClause
+    if sd is None or sd is False: return None
+    if not isinstance(sd, sa.DefaultClause): raise AssertionError("unexpected server default %r" % (sd,))
+    if isinstance(sd.arg, str): return ["lit", sd.arg]
+    if isinstance(sd.arg, TextClause): return ["expr", sd.arg.text]
+    raise AssertionError("unexpected default argument %r" % (sd.arg,))
 
 
 def un(s, prefix):
@@ -67,12 +87,15 @@ def build_metadata(schema):
     import sqlalchemy as sa
     md = sa.MetaData()
     for t in schema:
-        args = [sa.Column(cn(n), sa_type(fam, a), nullable=bool(nl), primary_key=bool(pk)) for n, fam, a, nl, pk in t["cols"]]
+        args = [sa.Column(cn(n), sa_type(fam, a), nullable=bool(nl), primary_key=bool(pk), server_default=sa_default(d))
+                for n, fam, a, nl, pk, d in t["cols"]]
         for k in t["cons"]:
             if k[0] == "uq":
                 args.append(sa.UniqueConstraint(*[cn(c) for c in k[2]], name=kn(k[1])))
             else:
                 args.append(sa.Index(kn(k[1]), *[cn(c) for c in k[2]], unique=bool(k[3])))
+        for f in t.get("fks", []):
+            args.append(sa.ForeignKeyConstraint([cn(c) for c in f[1]], ["%s.%s" % (tn(f[2]), cn(c)) for c in f[3]], name=fn(f[0])))
         sa.Table(tn(t["name"]), md, *args)
     return md
 
@@ -85,7 +108,7 @@ def quiet_logs():
 # ----------------------------------------------------------------------------- abstraction
 def abs_column(col, dialect):
     return [un(col.name, "c"), abs_type(col.type, dialect)[0], abs_type(col.type, dialect)[1], bool(col.nullable),
-            bool(col.primary_key)]
+            bool(col.primary_key), abs_default(col.server_default)]
 
 
 def abs_reflected(conn):
@@ -102,9 +125,6 @@ def abs_reflected(conn):
         t = sa.Table(name, md)
         event.listen(t, "column_reflect", impl._compat_autogen_column_reflect(insp))
         insp.reflect_table(t, include_columns=None)
-        for c in t.c:
-            if c.server_default is not None:
-                raise AssertionError("unexpected server default")
         cols = [abs_column(c, conn.dialect) for c in t.c]
         cons = []
         for uq in insp.get_unique_constraints(name):
@@ -113,10 +133,37 @@ def abs_reflected(conn):
             if any(c is None for c in ix["column_names"]):
                 raise AssertionError("expression index")
             cons.append(["ix", un(ix["name"], "k"), [un(c, "c") for c in ix["column_names"]], bool(ix["unique"])])
-        if insp.get_foreign_keys(name) or insp.get_check_constraints(name):
+        fks = []
+        for f in insp.get_foreign_keys(name):
+            if f.get("referred_schema") or any(v for v in (f.get("options") or {}).values()):
+                raise AssertionError("unexpected foreign key schema / options")
+            fks.append([un(f["name"], "f"), [un(c, "c") for c in f["constrained_columns"]], un(f["referred_table"], "t"),
+                        [un(c, "c") for c in f["referred_columns"]]])
+        if insp.get_check_constraints(name):
             raise AssertionError("unexpected constraint")
-        out.append({"name": un(name, "t"), "cols": cols, "cons": cons})
+        out.append({"name": un(name, "t"), "cols": cols, "cons": cons, "fks": fks})
     return out
+
+
+def canon_existing_default(sd):
+    """AlterColumnOp.existing_server_default is the reflected default of the comparison's conn table.  That table has gone
+    through SQLiteImpl.autogen_column_reflect only if it was reflected by _compare_tables itself; a table pulled in earlier as
+    the referred table of another table's foreign key (the order is a set iteration order) carries the raw text.  The two
+    forms normalise identically in compare_server_default; the observable is canonicalised to the listener's form."""
+    from alembic.ddl.sqlite import SQLiteImpl
+    d = abs_default(sd)
+    if d is not None and SQLiteImpl._guess_if_default_is_unparenthesized_sql_expr(None, d[1]):
+        d = [d[0], "(%s)" % d[1]]
+    return d
+
+
+def abs_fk_of_constraint(el):
+    if el.ondelete or el.onupdate or el.deferrable or el.initially:
+        raise AssertionError("unexpected foreign key options")
+    specs = [e._get_colspec().split(".") for e in el.elements]
+    if any(len(sp) != 2 for sp in specs) or len({sp[0] for sp in specs}) != 1:
+        raise AssertionError("unexpected foreign key target %r" % (specs,))
+    return [un(el.name, "f"), [un(k, "c") for k in el.column_keys], un(specs[0][0], "t"), [un(sp[1], "c") for sp in specs]]
 
 
 def _colnames(cols):
@@ -132,16 +179,18 @@ def abs_ops(upgrade_ops, dialect):
     def one(op, table=None):
         if isinstance(op, O.ModifyTableOps):
             for o in op.ops:
-                if o.table_name != op.table_name:
+                if (o.source_table if isinstance(o, O.CreateForeignKeyOp) else o.table_name) != op.table_name:
                     raise AssertionError("op of another table inside ModifyTableOps")
                 one(o)
         elif isinstance(op, O.CreateTableOp):
-            cols, uqs = [], []
+            cols, uqs, fks = [], [], []
             for el in op.columns:
                 if isinstance(el, sa.Column):
                     cols.append(abs_column(el, dialect))
                 elif isinstance(el, sa.UniqueConstraint):
                     uqs.append(["uq", un(el.name, "k"), _colnames(list(el.columns))])
+                elif isinstance(el, sa.ForeignKeyConstraint):
+                    fks.append(abs_fk_of_constraint(el))
                 elif isinstance(el, sa.PrimaryKeyConstraint):
                     pkc = sorted(_colnames(list(el.columns)))
                     if pkc != sorted(c[0] for c in cols if c[4]):
@@ -150,7 +199,7 @@ def abs_ops(upgrade_ops, dialect):
                     raise AssertionError("unexpected element in CreateTableOp: %r" % (el,))
             if op.schema is not None:
                 raise AssertionError("schema")
-            out.append(["create_table", {"name": un(op.table_name, "t"), "cols": cols, "cons": uqs}])
+            out.append(["create_table", {"name": un(op.table_name, "t"), "cols": cols, "cons": uqs, "fks": fks}])
         elif isinstance(op, O.DropTableOp):
             out.append(["drop_table", un(op.table_name, "t")])
         elif isinstance(op, O.AddColumnOp):
@@ -158,24 +207,31 @@ def abs_ops(upgrade_ops, dialect):
         elif isinstance(op, O.DropColumnOp):
             out.append(["drop_column", un(op.table_name, "t"), un(op.column_name, "c")])
         elif isinstance(op, O.AlterColumnOp):
-            if op.modify_server_default is not False or op.modify_name is not None or op.modify_comment is not False:
+            if op.modify_name is not None or op.modify_comment is not False:
                 raise AssertionError("unexpected modification in AlterColumnOp")
-            if op.existing_server_default not in (None, False):
-                raise AssertionError("unexpected existing_server_default")
             out.append(["alter_column", un(op.table_name, "t"), un(op.column_name, "c"),
-                        bool(op.existing_nullable), abs_type(op.existing_type, dialect),
+                        bool(op.existing_nullable), abs_type(op.existing_type, dialect), canon_existing_default(op.existing_server_default),
                         None if op.modify_nullable is None else bool(op.modify_nullable),
-                        None if op.modify_type is None else abs_type(op.modify_type, dialect)])
+                        None if op.modify_type is None else abs_type(op.modify_type, dialect),
+                        None if op.modify_server_default is False else [abs_default(op.modify_server_default)]])
         elif isinstance(op, O.CreateIndexOp):
             out.append(["add_cons", un(op.table_name, "t"), ["ix", un(op.index_name, "k"), _colnames(op.columns), bool(op.unique)]])
         elif isinstance(op, O.DropIndexOp):
             out.append(["drop_cons", un(op.table_name, "t"), True, un(op.index_name, "k")])
         elif isinstance(op, O.CreateUniqueConstraintOp):
             out.append(["add_cons", un(op.table_name, "t"), ["uq", un(op.constraint_name, "k"), _colnames(op.columns)]])
+        elif isinstance(op, O.CreateForeignKeyOp):
+            if any(op.kw.get(k) for k in ("source_schema", "referent_schema", "onupdate", "ondelete", "deferrable", "initially", "match")):
+                raise AssertionError("unexpected foreign key schema / options")
+            out.append(["add_fk", un(op.source_table, "t"), [un(op.constraint_name, "f"), [un(c, "c") for c in op.local_cols],
+                                                             un(op.referent_table, "t"), [un(c, "c") for c in op.remote_cols]]])
         elif isinstance(op, O.DropConstraintOp):
-            if op.constraint_type != "unique":
+            if op.constraint_type == "foreignkey":
+                out.append(["drop_fk", un(op.table_name, "t"), un(op.constraint_name, "f")])
+            elif op.constraint_type == "unique":
+                out.append(["drop_cons", un(op.table_name, "t"), False, un(op.constraint_name, "k")])
+            else:
                 raise AssertionError("drop of a %r constraint" % (op.constraint_type,))
-            out.append(["drop_cons", un(op.table_name, "t"), False, un(op.constraint_name, "k")])
         else:
             raise AssertionError("unexpected operation %r" % (op,))
 
@@ -231,7 +287,9 @@ ALL_CFGS = [(True, True), (True, False), (False, True), (False, False)]
 
 # ----------------------------------------------------------------------------- Coq encoders
 def q_ty(fam, args): return "(mkTy %d %s)" % (fam, cf.nlist(args))
-def q_col(c): return "(mkCol %d %s %s %s)" % (c[0], q_ty(c[1], c[2]), cf.boolean(c[3]), cf.boolean(c[4]))
+def q_dflt(d): return "(%s %s)" % ("DLit" if d[0] == "lit" else "DExpr", cf.string(d[1]))
+def q_col(c): return "(mkCol %d %s %s %s %s)" % (c[0], q_ty(c[1], c[2]), cf.boolean(c[3]), cf.boolean(c[4]), cf.opt(c[5], q_dflt))
+def q_fk(f): return "(mkFk %d %s %d %s)" % (f[0], cf.nlist(f[1]), f[2], cf.nlist(f[3]))
 
 
 def q_cons(k):
@@ -240,7 +298,8 @@ def q_cons(k):
     return "(Ix %d %s %s)" % (k[1], cf.nlist(k[2]), cf.boolean(k[3]))
 
 
-def q_table(t): return "(mkTable %d %s %s)" % (t["name"], cf.lst(q_col(c) for c in t["cols"]), cf.lst(q_cons(k) for k in t["cons"]))
+def q_table(t): return "(mkTable %d %s %s %s)" % (t["name"], cf.lst(q_col(c) for c in t["cols"]), cf.lst(q_cons(k) for k in t["cons"]),
+                                                 cf.lst(q_fk(f) for f in t.get("fks", [])))
 def q_schema(s): return cf.lst(q_table(t) for t in s)
 
 
@@ -251,8 +310,11 @@ def q_op(o):
     if k == "add_column": return "(OpAddColumn %d %s)" % (o[1], q_col(o[2]))
     if k == "drop_column": return "(OpDropColumn %d %d)" % (o[1], o[2])
     if k == "alter_column":
-        return "(OpAlterColumn %d %d %s %s %s %s)" % (o[1], o[2], cf.boolean(o[3]), q_ty(*o[4]), cf.opt(o[5], cf.boolean),
-                                                    cf.opt(o[6], lambda t: q_ty(*t)))
+        return "(OpAlterColumn %d %d %s %s %s %s %s %s)" % (o[1], o[2], cf.boolean(o[3]), q_ty(*o[4]), cf.opt(o[5], q_dflt),
+                                                          cf.opt(o[6], cf.boolean), cf.opt(o[7], lambda t: q_ty(*t)),
+                                                          cf.opt(o[8], lambda d: cf.opt(d[0], q_dflt)))
+    if k == "add_fk": return "(OpAddFk %d %s)" % (o[1], q_fk(o[2]))
+    if k == "drop_fk": return "(OpDropFk %d %d)" % (o[1], o[2])
     if k == "add_cons": return "(OpAddCons %d %s)" % (o[1], q_cons(o[2]))
     if k == "drop_cons": return "(OpDropCons %d %s %d)" % (o[1], cf.boolean(o[2]), o[3])
     raise AssertionError(k)
@@ -266,13 +328,26 @@ def q_cfg(c): return "(mkCfg %s %s)" % (cf.boolean(c[0]), cf.boolean(c[1]))
 def _sig(k): return frozenset(k[2])
 
 
+# server defaults of the class the theorems cover (Schema.v dflt_ok)
+DEFAULTS = [["lit", "5"], ["lit", "0"], ["lit", "abc"], ["lit", "x y"], ["lit", "1.5"], ["lit", "a-b, c"],
+            ["expr", "1.5"], ["expr", "5"], ["expr", "0"], ["expr", "CURRENT_TIMESTAMP"], ["expr", "-1"], ["expr", "NULL"],
+            ["expr", "1 + 2"], ["expr", "'q'"], ["expr", "'a b'"], ["expr", "'5'"], ["expr", "(1 + 2)"], ["expr", "(5)"],
+            ["expr", "(CURRENT_DATE)"]]
+# string defaults on which the unchanged code reports a spurious difference (finding C06-sqlite-string-default-not-quiet)
+BAD_DEFAULTS = [["lit", "(a)"], ["lit", ""], ["lit", "it's"], ["lit", "'q'"]]
+
+
+def gen_default(rnd, p=0.35):
+    return list(rnd.choice(DEFAULTS)) if rnd.random() < p else None
+
+
 def gen_table(rnd, name, kbase):
     ncols = rnd.choice([0, 1, 2, 2, 3, 3, 4, 5])
-    cols = [[0, 0, [], False, True]]
+    cols = [[0, 0, [], False, True, None]]
     for i in range(ncols):
         fam, args = rnd.choice(TYPE_CATALOGUE)
-        cols.append([i + 1, fam, list(args), rnd.random() < 0.65, False])
-    t = {"name": name, "cols": cols, "cons": []}
+        cols.append([i + 1, fam, list(args), rnd.random() < 0.65, False, gen_default(rnd)])
+    t = {"name": name, "cols": cols, "cons": [], "fks": []}
     for j in range(rnd.choice([0, 0, 1, 1, 2, 3])):
         add_cons(rnd, t, kbase + j)
     return t
@@ -288,13 +363,43 @@ def add_cons(rnd, t, name, kind=None):
     return True
 
 
+def _fsig(f): return (tuple(f[1]), f[2], tuple(f[3]))
+
+
+def add_fk(rnd, S, t, name):
+    """a foreign key from t to a table of S with a name <= t's (no cycles between tables; self-reference allowed)"""
+    targets = [x for x in S if x["name"] <= t["name"]]
+    if not targets: return False
+    r = rnd.choice(targets)
+    n = rnd.choice([1, 1, 1, 2])
+    src = [c[0] for c in t["cols"]]
+    dst = [c[0] for c in r["cols"]]
+    if len(src) < n or len(dst) < n: return False
+    f = [name, rnd.sample(src, n), r["name"], ([0] if n == 1 and rnd.random() < 0.6 else rnd.sample(dst, n))]
+    if any(_fsig(o) == _fsig(f) or o[0] == name for o in t["fks"]): return False
+    t["fks"].append(f)
+    return True
+
+
 def gen_schema(rnd, maxt=4):
     nt = rnd.randint(1, maxt)
     names = rnd.sample(range(6), nt)
-    return [gen_table(rnd, n, n * 10) for n in names]
+    S = [gen_table(rnd, n, n * 10) for n in names]
+    for t in S:
+        for j in range(rnd.choice([0, 0, 1, 1, 2])):
+            add_fk(rnd, S, t, t["name"] * 10 + j)
+    return S
 
 
-MUTATIONS = ["add_table", "drop_table", "add_col", "drop_col", "null", "type", "type_args", "add_ix", "add_uq",
+def fix_fks(S):
+    """drop foreign keys whose source / referred columns or referred table no longer exist"""
+    cols = {t["name"]: {c[0] for c in t["cols"]} for t in S}
+    for t in S:
+        t["fks"] = [f for f in t["fks"] if f[2] in cols and set(f[1]) <= cols[t["name"]] and set(f[3]) <= cols[f[2]]]
+
+
+MUTATIONS = ["add_table", "drop_table", "add_col", "drop_col", "null", "type", "type_args", "default", "default", "add_fk", "add_fk",
+             "drop_fk", "change_fk", "add_ix", "add_uq",
              "drop_cons", "change_cols", "change_unique", "swap_kind", "rename_cons"]
 
 
@@ -311,18 +416,33 @@ def mutate(rnd, S, kind=None):
         t = gen_table(rnd, n, n * 10)
         t["cons"] = [k for k in t["cons"] if k[1] not in used_k]
         B.append(t)
+        if rnd.random() < 0.4:
+            add_fk(rnd, B, t, n * 10)
         return B, [kind, n]
     if kind == "drop_table":
         if len(B) < 2: return None, None
         t = rnd.choice(B)
         B.remove(t)
+        fix_fks(B)
         return B, [kind, t["name"]]
     t = rnd.choice(B)
+    if kind == "add_fk":
+        free = [n for n in range(t["name"] * 10, t["name"] * 10 + 10) if n not in [f[0] for f in t["fks"]]]
+        if not free or not add_fk(rnd, B, t, rnd.choice(free)): return None, None
+        return B, [kind, t["name"], t["fks"][-1][0]]
+    if kind in ("drop_fk", "change_fk"):
+        if not t["fks"]: return None, None
+        f = rnd.choice(t["fks"])
+        t["fks"].remove(f)
+        if kind == "change_fk":
+            if not add_fk(rnd, B, t, f[0]): return None, None
+        return B, [kind, t["name"], f[0]]
     nonpk = [c for c in t["cols"] if not c[4]]
     if kind == "add_col":
         n = max(c[0] for c in t["cols"]) + 1 + rnd.randint(0, 1)
         fam, args = rnd.choice(TYPE_CATALOGUE)
-        t["cols"].append([n, fam, list(args), rnd.random() < 0.7, False])
+        d = gen_default(rnd)
+        t["cols"].append([n, fam, list(args), rnd.random() < 0.7, False, d])
         return B, [kind, t["name"], n]
     if kind == "drop_col":
         if not nonpk: return None, None
@@ -343,12 +463,17 @@ def mutate(rnd, S, kind=None):
             if _sig(k) in seen: continue
             seen.add(_sig(k)); keep2.append(k)
         t["cons"] = keep2
+        fix_fks(B)
         return B, [kind, t["name"], c[0]]
-    if kind in ("null", "type", "type_args"):
+    if kind in ("null", "type", "type_args", "default"):
         if not nonpk: return None, None
         c = rnd.choice(nonpk)
         if kind == "null":
             c[3] = not c[3]
+        elif kind == "default":
+            d = gen_default(rnd, 0.75)
+            if d == c[5]: return None, None
+            c[5] = d
         elif kind == "type":
             fam, args = rnd.choice([x for x in TYPE_CATALOGUE if x[0] != c[1]])
             c[1], c[2] = fam, list(args)
@@ -390,8 +515,21 @@ def mutate(rnd, S, kind=None):
     return B, [kind, t["name"], k[1]]
 
 
+def no_dangling(A, B):
+    """side condition of C06: no table dropped by A -> B is still referenced by a table of A that stays"""
+    bn = {t["name"] for t in B}
+    return all(f[2] in bn for t in A if t["name"] in bn for f in t["fks"])
+
+
 def gen_pair(rnd):
     """A and a B that shares most objects with it"""
+    while True:
+        A, B, desc = _gen_pair(rnd)
+        if no_dangling(A, B):
+            return A, B, desc
+
+
+def _gen_pair(rnd):
     A = gen_schema(rnd)
     B = A
     desc = []
@@ -408,8 +546,15 @@ def gen_pair(rnd):
 
 
 # ----------------------------------------------------------------------------- C07: the mutation catalogue
-MUT_KINDS = ["add_table", "drop_table", "add_column", "drop_column", "flip_nullable", "change_type", "add_cons",
-             "drop_cons", "change_cons"]
+MUT_KINDS = ["add_table", "drop_table", "add_column", "drop_column", "flip_nullable", "change_type", "change_default", "add_cons",
+             "drop_cons", "change_cons", "add_fk", "drop_fk"]
+
+
+def norm_default(d):
+    """the documented normalisation of SQLiteImpl.compare_server_default (two re.sub calls), on the default's text"""
+    if d is None: return None
+    t = re.sub(r"^\((.+)\)$", r"\1", d[1])
+    return re.sub(r"^\"?'(.+)'\"?$", r"\1", t)
 
 
 def types_match(f1, f2):
@@ -425,17 +570,23 @@ def gen_mutation(rnd, A, kind):
         n = rnd.choice(free)
         t = gen_table(rnd, n, n * 10)
         t["cons"] = [k for k in t["cons"] if k[1] not in used_k]
+        if rnd.random() < 0.5:
+            add_fk(rnd, A + [t], t, n * 10)
         return [kind, t]
     if kind == "drop_table":
-        return [kind, rnd.choice(A)["name"]]
+        free = [t for t in A if not any(f[2] == t["name"] for o in A if o is not t for f in o["fks"])]
+        if not free: return None
+        return [kind, rnd.choice(free)["name"]]
     t = rnd.choice(A)
     nonpk = [c for c in t["cols"] if not c[4]]
     if kind == "add_column":
         n = max(c[0] for c in t["cols"]) + 1 + rnd.randint(0, 1)
         fam, args = rnd.choice(TYPE_CATALOGUE)
-        return [kind, t["name"], [n, fam, list(args), rnd.random() < 0.7, False]]
+        d = gen_default(rnd)
+        return [kind, t["name"], [n, fam, list(args), rnd.random() < 0.7, False, d]]
     if kind == "drop_column":
-        free = [c for c in nonpk if not any(c[0] in k[2] for k in t["cons"])]
+        free = [c for c in nonpk if not any(c[0] in k[2] for k in t["cons"]) and not any(c[0] in f[1] for f in t["fks"])
+                and not any(f[2] == t["name"] and c[0] in f[3] for o in A for f in o["fks"])]
         if not free: return None
         return [kind, t["name"], rnd.choice(free)[0]]
     if kind == "flip_nullable":
@@ -446,6 +597,22 @@ def gen_mutation(rnd, A, kind):
         c = rnd.choice(nonpk)
         fam, args = rnd.choice([x for x in TYPE_CATALOGUE if not types_match(x[0], c[1])])
         return [kind, t["name"], c[0], [fam, list(args)]]
+    if kind == "change_default":
+        if not nonpk: return None
+        c = rnd.choice(nonpk)
+        d = gen_default(rnd, 0.7)
+        if norm_default(d) == norm_default(c[5]): return None
+        return [kind, t["name"], c[0], d]
+    if kind == "add_fk":
+        import copy
+        A2 = copy.deepcopy(A)
+        t2 = [x for x in A2 if x["name"] == t["name"]][0]
+        free = [n for n in range(t["name"] * 10, t["name"] * 10 + 10) if n not in [f[0] for f in t["fks"]]]
+        if not free or not add_fk(rnd, A2, t2, rnd.choice(free)): return None
+        return [kind, t["name"], t2["fks"][-1]]
+    if kind == "drop_fk":
+        if not t["fks"]: return None
+        return [kind, t["name"], rnd.choice(t["fks"])[0]]
     if kind == "add_cons":
         free = [n for n in range(t["name"] * 10, t["name"] * 10 + 10) if n not in used_k]
         if not free: return None
@@ -494,6 +661,11 @@ def apply_mutation(A, m):
         elif kind == "change_type":
             for c in t["cols"]:
                 if c[0] == m[2]: c[1], c[2] = m[3][0], list(m[3][1])
+        elif kind == "change_default":
+            for c in t["cols"]:
+                if c[0] == m[2]: c[5] = None if m[3] is None else list(m[3])
+        elif kind == "add_fk": t["fks"].append(list(m[2]))
+        elif kind == "drop_fk": t["fks"] = [f for f in t["fks"] if f[0] != m[2]]
         elif kind == "add_cons": t["cons"].append(list(m[2]))
         elif kind == "drop_cons": t["cons"] = [k for k in t["cons"] if k[1] != m[2]]
         elif kind == "change_cons": t["cons"] = [list(m[2]) if k[1] == m[2][1] else k for k in t["cons"]]
@@ -509,6 +681,9 @@ def q_mut(m):
     if k == "drop_column": return "(MDropColumn %d %d)" % (m[1], m[2])
     if k == "flip_nullable": return "(MFlipNullable %d %d)" % (m[1], m[2])
     if k == "change_type": return "(MChangeType %d %d %s)" % (m[1], m[2], q_ty(*m[3]))
+    if k == "change_default": return "(MChangeDefault %d %d %s)" % (m[1], m[2], cf.opt(m[3], q_dflt))
+    if k == "add_fk": return "(MAddFk %d %s)" % (m[1], q_fk(m[2]))
+    if k == "drop_fk": return "(MDropFk %d %d)" % (m[1], m[2])
     if k == "add_cons": return "(MAddCons %d %s)" % (m[1], q_cons(m[2]))
     if k == "drop_cons": return "(MDropCons %d %d)" % (m[1], m[2])
     if k == "change_cons": return "(MChangeCons %d %s)" % (m[1], q_cons(m[2]))
@@ -521,5 +696,6 @@ def type_matrix(same_family_too):
         for y in TYPE_CATALOGUE:
             if x == y: continue
             if not same_family_too and types_match(x[0], y[0]): continue
-            A = [{"name": 0, "cols": [[0, 0, [], False, True], [1, x[0], list(x[1]), True, False]], "cons": [["ix", 0, [1], False]]}]
+            A = [{"name": 0, "cols": [[0, 0, [], False, True, None], [1, x[0], list(x[1]), True, False, None]],
+                  "cons": [["ix", 0, [1], False]], "fks": []}]
             yield A, [y[0], list(y[1])]
